@@ -227,6 +227,33 @@ def run_rc_program(pid, tier, cfg):
         extra_cov = PRE[cfg["pre"]](pid, violations)
     procs = []
     nworkers = min(tcfg["workers"], NCPU)
+    # optional coverage-guided campaign over the same interpreter (libFuzzer build of the same source)
+    fz = cfg.get("fuzz")
+    fprocs = []
+    if fz and fz.get(tier) and not os.environ.get("VF_NO_FUZZ"):
+        ftc = dict(fz[tier])
+        if os.environ.get("VF_FUZZ_SECONDS"):
+            ftc["seconds"] = int(os.environ["VF_FUZZ_SECONDS"])
+        fbin = build_targets([fz["target"]])[fz["target"]]
+        nworkers = max(1, nworkers - ftc["workers"])
+        for j in range(ftc["workers"]):
+            d = os.path.join(wdir, "fz%d" % j)
+            os.makedirs(os.path.join(d, "corpus"))
+            # initial corpus: random programs (6 bytes per op) - a pure function of VERIF_SEED; coverage-guided
+            # mutation and cross-over start from histories of realistic length instead of from the empty input
+            import random
+            rnd = random.Random(seed_for(base_seed(), pid, 200 + j))
+            for k in range(ftc.get("seed_programs", 300)):
+                nops = rnd.randint(min(10, ftc.get("max_ops", 110)), ftc.get("max_ops", 110))
+                open(os.path.join(d, "corpus", "s%03d" % k), "wb").write(bytes(rnd.randrange(256) for _ in range(6 * nops)))
+            env = sanitizer_env()
+            env["VF_FUZZ_ID"] = pid
+            env["VF_FUZZ_OUT"] = d
+            lf = open(os.path.join(d, "log.txt"), "w")
+            cmd = [fbin, "-max_total_time=%d" % ftc["seconds"], "-max_len=%d" % (9 * ftc.get("max_ops", 110)), "-timeout=120",
+                   "-rss_limit_mb=4096", "-close_fd_mask=3", "-print_final_stats=1", "-seed=%d" % (seed_for(base_seed(), pid, 100 + j) % 2147483647),
+                   "-artifact_prefix=%s/art-" % d, os.path.join(d, "corpus")]
+            fprocs.append((j, d, subprocess.Popen(cmd, stdout=lf, stderr=subprocess.STDOUT, env=env, cwd=d), lf, fbin, ftc["seconds"]))
     # optional additional target serving the same property (e.g. C03 through the tetrahedral collapse harness)
     also = cfg.get("also")
     also_bin = build_targets([also["target"]])[also["target"]] if also else None
@@ -285,6 +312,36 @@ def run_rc_program(pid, tier, cfg):
         else:
             log("warning: worker %d exited rc=%s without a case file; see %s/log.txt" % (i, rc, d))
             merged["counters"]["worker_abnormal_exit"] = merged["counters"].get("worker_abnormal_exit", 0) + 1
+    fuzz_execs = 0
+    for j, d, p, lf, fbin, secs in fprocs:
+        try:
+            p.wait(timeout=secs + 300)
+        except subprocess.TimeoutExpired:
+            p.kill()
+            p.wait()
+        lf.close()
+        sp = os.path.join(d, "stats.json")
+        if os.path.exists(sp):
+            try:
+                st = json.load(open(sp))
+                fuzz_execs += st["evaluations"]
+                merged["evaluations"] += st["evaluations"]
+                merged["hashes"].update(st["nontrivial_hashes"])
+                for k, v in st["counters"].items():
+                    merged["counters"][k] = merged["counters"].get(k, 0) + v
+            except Exception as e:
+                log("warning: unreadable stats of fuzz worker %d: %s" % (j, e))
+        fails = sorted(glob.glob(os.path.join(d, "fail-*.txt")))
+        for f in fails:
+            candidates.append((f, "oracle failure in libFuzzer campaign", d, main_bin))
+        if not fails:
+            for a in sorted(glob.glob(os.path.join(d, "art-crash-*"))):
+                dec = a + ".txt"
+                env = sanitizer_env()
+                env.update(VF_FUZZ_ID=pid, VF_FUZZ_OUT=d, VF_FUZZ_DECODE=dec)
+                subprocess.run([fbin, a], stdout=subprocess.DEVNULL, stderr=subprocess.DEVNULL, env=env, cwd=d)
+                if os.path.exists(dec):
+                    candidates.append((dec, "abort in libFuzzer campaign", d, main_bin))
     seen = set()
     nonrepro = 0
     for path, why, d, wbin in candidates:
@@ -313,6 +370,7 @@ def run_rc_program(pid, tier, cfg):
         "workers": nworkers, "workers_timed_out": timed_out,
         "regression_replays_run": nreg,
         "nonreproducible_candidates": nonrepro,
+        "libfuzzer_executions_included": fuzz_execs, "libfuzzer_workers": len(fprocs),
         "rc_params": "max_success=%d max_size=%d len_scale=%s per worker" % (tcfg["max_success"], tcfg["max_size"], tcfg.get("len_scale")),
     }
     cov.update(extra_cov)
